@@ -18,6 +18,10 @@ use std::path::Path;
 pub struct BreakpointRecord {
     pub id: i64,
     pub addresses: Vec<debugger::address::Address>,
+    /// Numbers of the core breakpoints behind this record. Unlike an address (file-relative
+    /// before the process starts, relocated afterwards) a number identifies the breakpoint for
+    /// its whole life.
+    pub numbers: Vec<u32>,
     pub condition: Option<String>,
     pub hit_condition: Option<HitCondition>,
     pub log_message: Option<String>,
@@ -228,8 +232,15 @@ impl DebugSession {
                 .ok_or_else(|| anyhow!("setBreakpoints: debugger not initialized"))?;
 
             for record in prev {
-                for addr in record.addresses {
-                    let _ = dbg.remove_breakpoint(addr);
+                // by number: the address a breakpoint was recorded under changes identity
+                // when the process starts (file-relative -> relocated)
+                for number in &record.numbers {
+                    let _ = dbg.remove_breakpoint_by_number(*number);
+                }
+                if record.numbers.is_empty() {
+                    for addr in record.addresses {
+                        let _ = dbg.remove_breakpoint(addr);
+                    }
                 }
                 pending_events.push(InternalEvent::Breakpoint {
                     reason: "removed",
@@ -256,8 +267,7 @@ impl DebugSession {
                 };
 
                 match views {
-                    Ok(mut v) if !v.is_empty() => {
-                        let first = v.remove(0);
+                    Ok(v) if !v.is_empty() => {
                         let id = alloc_id();
                         let dap_bp = json!({
                             "id": id,
@@ -267,7 +277,9 @@ impl DebugSession {
                         });
                         new_breakpoints.push(BreakpointRecord {
                             id,
-                            addresses: vec![first.addr],
+                            // every instantiation of the line, not only the first one
+                            addresses: v.iter().map(|view| view.addr).collect(),
+                            numbers: v.iter().map(|view| view.number).collect(),
                             condition: options.condition,
                             hit_condition: options.hit_condition,
                             log_message: options.log_message,
@@ -290,6 +302,7 @@ impl DebugSession {
                         new_breakpoints.push(BreakpointRecord {
                             id,
                             addresses: Vec::new(),
+                            numbers: Vec::new(),
                             condition: options.condition,
                             hit_condition: options.hit_condition,
                             log_message: options.log_message,
@@ -352,8 +365,15 @@ impl DebugSession {
                 .ok_or_else(|| anyhow!("setFunctionBreakpoints: debugger not initialized"))?;
 
             for record in prev {
-                for addr in record.addresses {
-                    let _ = dbg.remove_breakpoint(addr);
+                // by number: the address a breakpoint was recorded under changes identity
+                // when the process starts (file-relative -> relocated)
+                for number in &record.numbers {
+                    let _ = dbg.remove_breakpoint_by_number(*number);
+                }
+                if record.numbers.is_empty() {
+                    for addr in record.addresses {
+                        let _ = dbg.remove_breakpoint(addr);
+                    }
                 }
                 pending_events.push(InternalEvent::Breakpoint {
                     reason: "removed",
@@ -379,6 +399,7 @@ impl DebugSession {
                     new_breakpoints.push(BreakpointRecord {
                         id,
                         addresses: Vec::new(),
+                        numbers: Vec::new(),
                         condition: options.condition,
                         hit_condition: options.hit_condition,
                         log_message: options.log_message,
@@ -402,6 +423,7 @@ impl DebugSession {
                         new_breakpoints.push(BreakpointRecord {
                             id,
                             addresses: views.iter().map(|view| view.addr).collect(),
+                            numbers: views.iter().map(|view| view.number).collect(),
                             condition: options.condition,
                             hit_condition: options.hit_condition,
                             log_message: options.log_message,
@@ -423,6 +445,7 @@ impl DebugSession {
                         new_breakpoints.push(BreakpointRecord {
                             id,
                             addresses: Vec::new(),
+                            numbers: Vec::new(),
                             condition: options.condition,
                             hit_condition: options.hit_condition,
                             log_message: options.log_message,
@@ -444,6 +467,7 @@ impl DebugSession {
                         new_breakpoints.push(BreakpointRecord {
                             id,
                             addresses: Vec::new(),
+                            numbers: Vec::new(),
                             condition: options.condition,
                             hit_condition: options.hit_condition,
                             log_message: options.log_message,
@@ -504,8 +528,15 @@ impl DebugSession {
                 .ok_or_else(|| anyhow!("setInstructionBreakpoints: debugger not initialized"))?;
 
             for record in prev {
-                for addr in record.addresses {
-                    let _ = dbg.remove_breakpoint(addr);
+                // by number: the address a breakpoint was recorded under changes identity
+                // when the process starts (file-relative -> relocated)
+                for number in &record.numbers {
+                    let _ = dbg.remove_breakpoint_by_number(*number);
+                }
+                if record.numbers.is_empty() {
+                    for addr in record.addresses {
+                        let _ = dbg.remove_breakpoint(addr);
+                    }
                 }
                 pending_events.push(InternalEvent::Breakpoint {
                     reason: "removed",
@@ -532,6 +563,7 @@ impl DebugSession {
                     new_breakpoints.push(BreakpointRecord {
                         id,
                         addresses: Vec::new(),
+                        numbers: Vec::new(),
                         condition: options.condition,
                         hit_condition: options.hit_condition,
                         log_message: options.log_message,
@@ -558,6 +590,7 @@ impl DebugSession {
                         new_breakpoints.push(BreakpointRecord {
                             id,
                             addresses: Vec::new(),
+                            numbers: Vec::new(),
                             condition: options.condition,
                             hit_condition: options.hit_condition,
                             log_message: options.log_message,
@@ -583,6 +616,7 @@ impl DebugSession {
                         new_breakpoints.push(BreakpointRecord {
                             id,
                             addresses: vec![view.addr],
+                            numbers: vec![view.number],
                             condition: options.condition,
                             hit_condition: options.hit_condition,
                             log_message: options.log_message,
@@ -604,6 +638,7 @@ impl DebugSession {
                         new_breakpoints.push(BreakpointRecord {
                             id,
                             addresses: Vec::new(),
+                            numbers: Vec::new(),
                             condition: options.condition,
                             hit_condition: options.hit_condition,
                             log_message: options.log_message,
